@@ -56,6 +56,11 @@ def eval_call(self, st, node):
                             kwargs["**"] = v
                     else:
                         kwargs[kw.arg] = v
+                if isinstance(fn, Top) and fn.domain is None and isinstance(node.func, ast.Name) and node.func.id in self.stubs \
+                        and callable(self.stubs[node.func.id]):
+                    # a module-level alias the index cannot resolve (NAME = module.attr): the harness stub by that name
+                    res.extend(self.stubs[node.func.id](self, s3, list(args), kwargs, node))
+                    continue
                 res.extend(apply(self, s3, fn, list(args), kwargs, node))
     return res
 
